@@ -57,7 +57,7 @@ REQUIRED_FEATURES = {
         **{
             "param-supplied": 50, "param-default": 50, "parallel-default-inherited": 50, "parallel-default-overridden": 20,
             "completed-by-name": 20, "completed-by-any": 20, "include-challenge": 20, "include-task": 20, "collect-challenges": 20,
-            "collect-operations": 20, "nested-collect": 10, "param-in-imported-macro": 10, "two-collects-on-one-line": 5, "param-value-with-markup-characters": 10, "op-by-reference": 50, "op-type-string": 50, "corpus-level-defaults": 50, "index-body-file": 50,
+            "collect-operations": 20, "nested-collect": 10, "param-in-imported-macro": 10, "two-collects-on-one-line": 5, "tar-archive-source-file": 20, "param-value-with-markup-characters": 10, "op-by-reference": 50, "op-type-string": 50, "corpus-level-defaults": 50, "index-body-file": 50,
             "multiple-challenges": 50, "top-level-schedule": 50, "via-load_track": 50, "params-as-kv": 20, "params-as-json": 20,
             "parallel-ramp-up": 10, "conditional-task-off": 5, "conditional-task-on": 5, "param-only-in-collect-part": 5,
             "param-only-in-body-file": 5, "same-task-name-in-two-challenges": 20, "single-challenge-default-false": 10,
